@@ -8,7 +8,7 @@ from framelint.core import rule, Ctx
 from framelint.srcmodel import walk_own, AnalysisError
 from framelint.canon import (canon_function, show, S, to_poly, mk_lt, mk_not, mk_and, mk_or, mk_eq, k_num, k_str, contains, skey, atoms_of, Sigma,
                              K_TRUE, single_defs, deref, Poly, diff_paths)
-from .common import RECT, RECTIO, SATM, call_name, norm_stmt
+from .common import posted_unconditionally, RECT, RECTIO, SATM, call_name, norm_stmt
 from .C01 import _alpha
 
 CAR = ("p", 0)
@@ -208,6 +208,12 @@ def r3(ctx: Ctx) -> None:
                    lineno=f.node.lineno)
     # border exclusions
     borders = [st for st in lp[3] if st[0] == "if" and st[1][0] == "eq0"]
+    nested = [st for top in lp[3] if top[0] == "if" for st in atoms_of(top, lambda x: x[0] == "if" and len(x) == 4 and x[1][0] == "eq0") if st is not top and st not in borders]
+    if len(borders) != 4 and len(borders) + len(nested) == 4:
+        ctx.site(f.where, "the four die-border exclusions are independent tests", independent=len(borders))
+        ctx.report(f.where, f"border-exclusions-chained {len(borders)} independent", "the four die-border exclusions are not tested independently (elif chain): a corner cell lies on "
+                   "two borders and gets only one exclusion, so a branch there needs no abutting trunk cell in the other direction", lineno=f.node.lineno)
+        return
     ctx.require(len(borders) == 4, f"enforce_bb: expected four die-border exclusions, found {len(borders)}")
     for name, sg in [("x<->y", sxy)]:
         a = _norm_block(borders)
@@ -260,7 +266,8 @@ def r1(ctx: Ctx) -> None:
             for st in body:
                 if st[0] == "expr" and st[1][0] == "c" and st[1][1] in (("a", sm, "heuleencoding"), ("a", sm, "quadraticencoding")):
                     arg = st[1][2][0]
-                    if arg[0] == "comp" and arg[3][0][1] == ("c", ("g", "range"), (nboxes,), ()) and arg[3][0][2] == K_TRUE and contains(arg[2][0], lp[1]) and contains(arg[2][0], arg[3][0][0]):
+                    if arg[0] == "comp" and arg[3][0][1] == ("c", ("g", "range"), (nboxes,), ()) and arg[3][0][2] == K_TRUE and contains(arg[2][0], lp[1]) and contains(arg[2][0], arg[3][0][0]) \
+                            and posted_unconditionally(body, st):
                         ok = True
     if not ok:
         ctx.report(f.where, "cell-exclusive", "no at-most-one constraint over all boxes is posted for every cell", lineno=f.node.lineno)
@@ -272,13 +279,14 @@ def r1(ctx: Ctx) -> None:
             for il in inner:
                 for st in il[3]:
                     if st[0] == "expr" and st[1][0] == "c" and st[1][1] == ("a", sm, "imply") and st[1][2][0][0] == "list" and len(st[1][2][0][1]) == 1 \
-                            and contains(st[1][2][0][1][0], il[1]) and not contains(st[1][2][1], il[1]):
+                            and contains(st[1][2][0][1][0], il[1]) and not contains(st[1][2][1], il[1]) and posted_unconditionally(il[3], st) \
+                            and posted_unconditionally(lp[3], il):
                         fwd = True
             for st in lp[3]:
                 if st[0] == "expr" and st[1][0] == "c" and st[1][1] == ("a", sm, "imply") and st[1][2][0][0] == "v" and st[1][2][1][0] == "poly":
                     lst = st[1][2][0]
                     apps = [x for il in inner for x in il[3] if x[0] == "expr" and x[1][0] == "c" and x[1][1] == ("a", lst, "append") and x[1][2][0][0] == "poly"]
-                    if apps:
+                    if apps and posted_unconditionally(lp[3], st) and all(posted_unconditionally(il[3], x) for il in inner for x in il[3] if x in apps):
                         bwd = True
     if not (fwd and bwd):
         ctx.report(f.where, f"cell-iff-box fwd={fwd} bwd={bwd}", "the equivalence 'cell selected <=> cell in some box' is not posted in both directions for every cell",
